@@ -11,6 +11,7 @@ import (
 	"os"
 	"os/exec"
 	"path/filepath"
+	"regexp"
 	"strconv"
 	"strings"
 	"sync"
@@ -296,6 +297,44 @@ func CellIdx(off, i Term) Term {
 	}
 	return app(SInt, "at", off, i)
 }
+
+// Mix(a, b, n): the array that agrees with a below n and with b from n on: the heap class after a
+// call that may only have initialised objects it allocated itself (references >= n).
+func sortId(s Sort) string {
+	r := strings.NewReplacer("(", "", ")", "", " ", "_")
+	return r.Replace(string(s))
+}
+
+func Mix(a, b, n Term) Term {
+	mixMu.Lock()
+	mixSorts[sortId(a.Sort)] = string(a.Sort)
+	mixMu.Unlock()
+	return app(a.Sort, "mix."+sortId(a.Sort), a, b, n)
+}
+
+var mixMu sync.Mutex
+
+func mixDecls(text string) string {
+	var b strings.Builder
+	seen := map[string]bool{}
+	for _, m := range mixRe.FindAllStringSubmatch(text, -1) {
+		id := m[1]
+		if seen[id] {
+			continue
+		}
+		seen[id] = true
+		srt := mixSorts[id]
+		if srt == "" {
+			continue
+		}
+		fmt.Fprintf(&b, "(declare-fun mix.%s (%s %s Int) %s)\n", id, srt, srt, srt)
+		fmt.Fprintf(&b, "(assert (forall ((a!m %s) (b!m %s) (n!m Int) (p!m Int)) (! (= (select (mix.%s a!m b!m n!m) p!m) (ite (< p!m n!m) (select a!m p!m) (select b!m p!m))) :pattern ((select (mix.%s a!m b!m n!m) p!m)))))\n", srt, srt, id, id)
+	}
+	return b.String()
+}
+
+var mixRe = regexp.MustCompile(`\(mix\.([A-Za-z0-9_]+) `)
+var mixSorts = map[string]string{}
 
 const atDecl = "(declare-fun at (Int Int) Int)\n(assert (forall ((o!a Int) (i!a Int)) (! (= (at o!a i!a) (+ o!a i!a)) :pattern ((at o!a i!a)))))\n"
 
